@@ -184,6 +184,14 @@ func checkC06(cx *Ctx, r *Report) {
 		r.checkSources("R-VFG", "sso:GetEntityByID:entityID", w.InstrPos(sites[0]), ls, []string{"decoded:samlp.AuthnRequestType.Issuer.Text"}, []string{"decoded:samlp.AuthnRequestType.Issuer.Text"}, true)
 	}
 
+	// the encoding handed to the decoder is what the client sent (or the redirect-binding default): it is never blanked
+	if ls, sites := vf.FieldStoreSources("provider.AuthRequestForm", "Encoding"); len(sites) > 0 {
+		fvEnc := `ext:(*http.Request).FormValue("SAMLEncoding")#0`
+		r.checkSources("R-VFG", "sso:AuthRequestForm.Encoding", w.InstrPos(sites[0]), ls, []string{fvEnc, cDeflate}, []string{fvEnc}, true)
+	} else {
+		r.Fail("R-VFG", "sso:AuthRequestForm.Encoding", "", "the SAMLEncoding parameter is not read")
+	}
+	cx.checkTags(r, "R-TAG", "samlp.AuthnRequestType", "saml.NameIDType", "saml.ConditionsType")
 	// --- InflateAndDecode ---------------------------------------------------------------
 	cx.checkInflateCases(r, "R-GUARD")
 	for _, dk := range []string{"xml.DecodeAuthNRequest", "xml.DecodeLogoutRequest"} {
